@@ -128,3 +128,19 @@ def C09St.quiescentOk (st : C09St) : Bool :=
     | _ => true)
 
 end Hannibal
+
+namespace Hannibal
+
+/-- Trace well-formedness for C09: a publication number is published at most once (the state is the
+    list of publication numbers begun so far).  Needed by clause (1) and by `pubOf`, which identifies the
+    publish operation of a delivery by its number. -/
+def wfC09 : BMon (List Nat) where
+  init := []
+  step W l :=
+    match l with
+    | .bbegin _ (.pub m) => if W.contains m then none else some (m :: W)
+    | _ => some W
+
+def wf09 (ls : List BLabel) : Bool := wfC09.ok ls
+
+end Hannibal
